@@ -15,7 +15,16 @@ class Patch:
         return {'serial': self.serial, 'kind': self.kind, 'value': self.value, 'once': self.once}
 
 
+class CallbackTrouble(Exception):
+    """Raised by a callback patch that simulates a transport fault."""
+
+
+def _boom(*a: Any, **k: Any) -> Any:
+    raise CallbackTrouble('scripted callback failure')
+
+
 CALLBACKS = {
+    'boom': _boom,
     'sum': lambda *a, **k: sum(v for v in list(a) + list(k.values()) if isinstance(v, (int, float)) and not isinstance(v, bool)),
     'count': lambda *a, **k: len(a) + len(k),
     'names': lambda *a, **k: sorted(k) if k else list(a),
@@ -74,4 +83,6 @@ class MockerModel:
             return {'kind': 'reply', 'id': rid, 'result': head.value, 'patch': head.serial}
         if head.kind == 'error':
             return {'kind': 'reply', 'id': rid, 'error': head.value, 'patch': head.serial}
+        if head.value == 'boom':
+            return {'kind': 'callback_raises', 'patch': head.serial}
         return {'kind': 'reply', 'id': rid, 'result': CALLBACKS[head.value](*args, **kwargs), 'patch': head.serial}
